@@ -32,6 +32,18 @@ cis/trans statement can name (thorough: every atom at every position, and on
 the scheme files with a stereo constraint all <= 720 relative orders of the
 two double-bond carbons and their neighbours); and it is put through every
 input form (rootings, Kekule / explicit-hydrogen spellings, objects).
+
+Fifth wave (domains/w5_c03.py): molecule OBJECTS in every state of
+preparation.  Until now every object given to GetDescriptors was a fully
+sanitised product of Chem.MolFromSmiles (rings perceived, flags set).  Now
+every molecule of the input-form list and every ring pair is also given as
+the product of: source {parsed unsanitised from the canonical / from the
+Kekule spelling, built atom by atom with RWMol; thorough + built in reverse
+order} x ring information {never perceived, FastFindRings, GetSSSR,
+GetSymmSSSR} x derived flags {none, conjugation + hybridisation; thorough all
+4 subsets} x hydrogens {implicit, explicit atoms}.  Each object is first
+checked to denote the molecule, then must give the descriptors (or failure)
+of the canonical SMILES.
 """
 import itertools
 
@@ -41,6 +53,7 @@ from ..domains import molecules as MD
 from ..domains import libs
 from ..domains import w3_c03 as W3
 from ..domains import w4_c03 as W4
+from ..domains import w5_c03 as W5
 
 LEVEL = 'exploration'
 FULL_SCHEMES = {'quick': ['BensonGA', 'GRWSurface2018'], 'thorough': None}
@@ -67,7 +80,15 @@ BOUND = {
              'a label; 2-18 heavy atoms), each under the single-atom moves and the reversal as '
              'above plus all 24 relative orders of every quadruple (substituent, C, C\', '
              'substituent) with the other atoms in place (5970 renumberings, string and object '
-             'path), and each in every input form',
+             'path), and each in every input form; '
+             'on the same 2 scheme files every molecule of the input-form list (curated '
+             'list + 10 large + 5 fused-benzenoid molecules) and each of the 121 ring pairs as '
+             'a molecule OBJECT in every state of preparation: source {parsed with '
+             'sanitize=False from the canonical SMILES, from the Kekule SMILES where that text '
+             'differs, built atom by atom with RWMol} x ring information {never perceived, '
+             'FastFindRings, GetSSSR, GetSymmSSSR} x derived flags {none, SetConjugation + '
+             'SetHybridization} x hydrogens {implicit, AddHs} = 32 (aromatic molecules 48) '
+             'objects per molecule',
     'thorough': 'all permutations up to 6 heavy atoms, on all 6 distinct scheme files, all-atom '
                 'permutations for <= 7 atoms and ethane, placements of all 3-subsets; '
                 'on all 6 scheme files the bifunctional molecules and the ring pairs over 10 '
@@ -78,7 +99,11 @@ BOUND = {
                 '24 relative orders of every (substituent, C, C\', substituent) quadruple, on the '
                 'scheme files with a stereo constraint (BensonGA, PPY) also under all <= 720 '
                 'relative orders of the double-bond carbons and their neighbours; every input '
-                'form of each'}
+                'form of each; on all 6 scheme files the object states of every molecule of the '
+                'input-form list and of the 478 thorough ring pairs: source {parsed unsanitised '
+                'canonical / Kekule, built with RWMol, built in reverse atom order} x the 4 ring '
+                'information states x all 4 subsets of {SetConjugation, SetHybridization} x '
+                'hydrogens {implicit, AddHs} = 96 (aromatic 128) objects per molecule'}
 RULE = ('every spelling/renumbering in the stated space is decomposed and '
         'compared with the canonical spelling of the same molecule; '
         'non-trivial = the spelling differs from the canonical one and the '
@@ -90,7 +115,13 @@ RULE = ('every spelling/renumbering in the stated space is decomposed and '
         '{lower,higher}_ranked_end count the SMILES spellings in which the '
         'double bond is written starting from its lower / higher '
         'canonically ranked carbon, ethene_labelled_cases the cases on a '
-        'molecule with an E/Z label')
+        'molecule with an E/Z label; for the object states the counters '
+        'objstate_objects_with_unperceived_rings_on_a_ring_molecule and '
+        'objstate_of_those_with_fewer_than_6_carbons count the objects that '
+        'reach GetDescriptors without ring information although the '
+        'molecule has a ring (all / molecules with < 6 carbon atoms), '
+        'objstate_objects_with_fast_rings_differing_from_sssr those whose '
+        'FastFindRings ring list has other ring sizes than the SSSR')
 ASSUMPTIONS = ['every generated spelling is first checked to parse back to the '
                'same canonical isomeric SMILES (a spelling that does not is a '
                'harness error, never a case)',
@@ -112,6 +143,16 @@ ASSUMPTIONS = ['every generated spelling is first checked to parse back to the '
                'labelled spellings are written by RDKit (MolToSmiles of the '
                'renumbered object, canonical=False), which decides where the '
                '/ and \\ marks go',
+               'object states (fifth wave): the object always carries the '
+               'chemical information itself - atoms, bonds, charges, hydrogen '
+               'counts, radical counts (Chem.AssignRadicals after an '
+               'unsanitised parse) and, for molecules with an E/Z label, the '
+               'perceived label (Chem.AssignStereochemistry) - and has its '
+               'property cache updated (AddHs needs that); only DERIVED '
+               'information (rings, conjugation, hybridisation, aromaticity '
+               'perception) is varied.  Every object is checked before use: a '
+               'sanitised copy must have the canonical isomeric SMILES of the '
+               'molecule (otherwise harness error, never a case)',
                'ring joins RDKit cannot sanitise are not molecules and are left '
                'out; fused benzene + benzene is finding K2 (CURATED_FUSED)']
 MANIFEST = dict(
@@ -125,7 +166,11 @@ MANIFEST = dict(
          '(joined by a bond, a CH2, fused or spiro), all single-atom moves '
          'and all relative orders of the atoms a cis/trans statement names in '
          'every substituted ethene R1R2C=CR3R4 over {H, Me, Et, tBu} with '
-         'and without E/Z labels, and all input forms, must '
+         'and without E/Z labels, all input forms, and molecule '
+         'objects in every state of preparation (unsanitised parse or RWMol '
+         'construction x ring information never perceived / fast / SSSR / '
+         'symmetrised x conjugation and hybridisation flags unset / set x '
+         'implicit / explicit hydrogens), must '
          'give the same descriptors (or the same failure) as the canonical '
          'spelling on the shipped scheme files; object and string input must '
          'give the same estimates.',
@@ -234,6 +279,8 @@ def check_variant(R, name, S, M, base, how, x, label):
         key = '%s:raises-%s' % (how, d[1])
     elif M.fused:
         key = 'order-dependent:fused-benzenoid:%s' % M.canon
+    elif how == 'objstate':
+        key = 'objstate:object-differs-from-its-smiles'
     else:
         key = '%s:order-dependent' % how
     R.violation(key, '[%s] %s written as %s (%s): %r, canonical spelling gives %r'
@@ -408,6 +455,53 @@ def run_w4(R, name, smi, tier, only=None):
                   spelling=string_for(M, tuple(reversed(range(M.n))))), limit=1)
 
 
+# ------------------------------------------------------------- fifth wave
+
+def w5_molecules(name, tier):
+    """The input-form list of the scheme plus the ring pairs of the tier,
+    once each (by canonical SMILES)."""
+    out, seen = [], set()
+    for s in (SD.molecules_for(name, 'quick') + BIG + MD.CURATED_FUSED +
+              [c for c, _ in W3.ring_pairs(tier)]):
+        c = MD.canon(s)
+        if c not in seen:
+            seen.add(c)
+            out.append(s)
+    return out
+
+
+def run_objstates(R, name, smis, tier, only=None):
+    """Every molecule of `smis` as a molecule object in every state of
+    preparation of W5.labels(tier) (or the single state `only`)."""
+    S = scheme(name)
+    for smi in smis:
+        M = Mol(smi)
+        base = desc(S, M.canon)
+        labelled = MD.has_stereo(M.m)
+        ktext = W5.kekule_text(M.m, M.kek, M.stereo)
+        differs = ktext != M.canon
+        has_ring = M.m.GetRingInfo().NumRings() > 0
+        carbons = sum(1 for a in M.m.GetAtoms() if a.GetAtomicNum() == 6)
+        sssr = None
+        for label in ([only] if only is not None else W5.labels(tier, differs)):
+            x = W5.state(M.canon, ktext, labelled, label)
+            if not W5.denotes(x, M.canon):
+                raise AssertionError('harness: object state %r of %s does not '
+                                     'denote the molecule' % (label, M.canon))
+            if has_ring:
+                if not W5.rings_known(x):
+                    R.extra['objstate_objects_with_unperceived_rings_on_a_ring_molecule'] += 1
+                    R.extra['objstate_of_those_with_fewer_than_6_carbons'] += int(carbons < 6)
+                elif '|rings=fast|' in label:
+                    if sssr is None:
+                        sssr = sorted(len(r) for r in M.m.GetRingInfo().AtomRings())
+                    if sorted(len(r) for r in x.GetRingInfo().AtomRings()) != sssr:
+                        R.extra['objstate_objects_with_fast_rings_differing_from_sssr'] += 1
+            check_variant(R, name, S, M, base, 'objstate', x, label)
+        R.sample(dict(scheme=name, family='objstate', molecule=M.canon,
+                      states=W5.labels(tier, differs)[:6]), limit=1)
+
+
 def forms(M):
     """Input forms: (label, x)."""
     from rdkit import Chem
@@ -539,6 +633,7 @@ def small_molecules(name, tier):
 W3_CHUNKS = 8
 W4_CHUNKS = {'quick': 12, 'thorough': 48}
 W4_FORM_CHUNKS = 4
+W5_CHUNKS = {'quick': 12, 'thorough': 48}
 
 
 def shards(tier, seed):
@@ -559,6 +654,9 @@ def shards(tier, seed):
         for fam in W3_FAMILIES:
             for i in range(W3_CHUNKS):
                 out.append(('w3', name, fam, i, W3_CHUNKS))
+    for name in schemes_for(tier):
+        for i in range(W5_CHUNKS[tier]):
+            out.append(('w5', name, i, W5_CHUNKS[tier]))
     for name in SD.distinct_schemes():
         for i in range(4):
             out.append(('forms', name, i, 4))
@@ -588,6 +686,9 @@ def run_shard(shard, tier):
     elif shard[0] == 'w4forms':
         _, name, i, n = shard
         run_forms(R, name, w4_molecules(tier)[i::n])
+    elif shard[0] == 'w5':
+        _, name, i, n = shard
+        run_objstates(R, name, w5_molecules(name, tier)[i::n], tier)
     elif shard[0] == 'forms':
         _, name, i, n = shard
         mols = SD.molecules_for(name, 'quick') + BIG + MD.CURATED_FUSED
@@ -603,6 +704,8 @@ def replay(w):
         run_estimates(R, w['scheme'])
     elif w['how'] == 'form':
         run_forms(R, w['scheme'], [w['smiles']], only=w['label'])
+    elif w['how'] == 'objstate':
+        run_objstates(R, w['scheme'], [w['smiles']], 'thorough', only=w['label'])
     elif w['how'].split('-')[-1] in W3_FAMILIES:
         run_w3(R, w['scheme'], w['how'].split('-')[-1], w['smiles'], 'quick',
                only=w['label'])
